@@ -123,4 +123,33 @@ theorem source_condition_accepted (f) (hf : newZXCVBNPolicy = some f) (s : Bytes
               · injection hc with hc; subst hc; simp at hk
               · simp at hc
 
+/-- `NewPasswordPolicy`: no policy for the empty type, the zxcvbn parser's own results for `zxcvbn`
+    (for EVERY behaviour `zx` of that parser), an error for any other type. -/
+theorem newPasswordPolicy_is_source (f) (hf : newPasswordPolicy = some f) (zx : Bytes → Bool × Bool) (ty cond : Bytes) :
+    f zx ty cond = if ty = [] then (true, false) else if ty = zxcvbnB then zx cond else (false, true) := by
+  unfold newPasswordPolicy at hf
+  first
+  | (cases hf; done)
+  | (injection hf with hf
+     subst hf
+     simp only [zxcvbnB, decide_eq_true_eq]
+     repeat' split
+     all_goals first | rfl | (simp_all; done))
+
+/-- With the translated condition parser's verdict as `zx`: the source's constructor succeeds exactly
+    when the model's `newPolicy` does (`bad_policy_stops_agent` of C17 is about this function). -/
+theorem source_newPolicy_model (f) (hf : newPasswordPolicy = some f) (ty cond : Bytes) :
+    f (fun c => ((parseCondition c).isSome, (parseCondition c).isNone)) ty cond =
+      ((newPolicy ty cond).isSome, (newPolicy ty cond).isNone) := by
+  rw [newPasswordPolicy_is_source f hf]
+  unfold newPolicy
+  by_cases h1 : ty = []
+  · simp [h1]
+  · by_cases h2 : ty = zxcvbnB
+    · subst h2
+      have hz : ¬ (zxcvbnB = []) := by decide
+      simp only [hz, if_false, if_true]
+      cases parseCondition cond <;> rfl
+    · simp [h1, h2]
+
 end Whawty.Gen.Tie
